@@ -1,8 +1,258 @@
-(* C10 — proofs about the model (see Properties.v for the exported statements). *)
+(* C10 — the decision procedures of Spec.v decide the Props, the model satisfies them, and the
+   witnesses for the sentences that are false without their hypothesis. *)
 From Coq Require Import List ZArith Bool Lia.
-From Verif Require Import Gen.Gen_consts C10.Model C10.Spec.
+From Verif Require Import Gen.Gen_consts C10.Model C10.Spec C10.Proofs_Pick C10.Proofs_Adjust C10.Proofs_Budget.
 Import ListNotations.
 Open Scope Z_scope.
 
-Lemma quota_target_min b : beMinQuota <= quota_target b.
-Proof. unfold quota_target. lia. Qed.
+(* ---------------------------------------------------------------- boolean reflection *)
+
+Lemma nodupb_spec l : nodupb l = true <-> NoDup l.
+Proof.
+  induction l as [|x t IH]; cbn [nodupb].
+  - split; [constructor | reflexivity].
+  - rewrite andb_true_iff, negb_true_iff, memZ_nIn, IH. split.
+    + intros [H1 H2]. constructor; assumption.
+    + intros H. inversion H; subst. split; assumption.
+Qed.
+
+Lemma inclb_spec a b : inclb a b = true <-> incl a b.
+Proof.
+  unfold inclb, incl. rewrite forallb_forall. split; intros H x Hx.
+  - apply memZ_In. apply H. exact Hx.
+  - apply memZ_In. apply H. exact Hx.
+Qed.
+
+Lemma eq_listZ_spec a : forall b, eq_listZ a b = true <-> a = b.
+Proof.
+  induction a as [|x t IH]; intros [|y u]; cbn [eq_listZ]; try (split; [discriminate|discriminate]).
+  - split; reflexivity.
+  - rewrite andb_true_iff, Z.eqb_eq, IH. split.
+    + intros [-> ->]. reflexivity.
+    + intros H. inversion H. split; reflexivity.
+Qed.
+Lemma eq_listZ_refl a : eq_listZ a a = true.
+Proof. apply eq_listZ_spec. reflexivity. Qed.
+
+Lemma unprotected_existingb_spec i s :
+  unprotected_existingb i s = true <-> unprotected_existing i s.
+Proof.
+  unfold unprotected_existingb, unprotected_existing. rewrite forallb_forall. split; intros H c Hc.
+  - specialize (H c Hc). apply andb_true_iff in H. destruct H as [H1 H2].
+    split; [apply memZ_In; exact H1 | apply negb_true_iff; exact H2].
+  - destruct (H c Hc) as [H1 H2]. apply andb_true_iff. split; [apply memZ_In; exact H1|].
+    apply negb_true_iff. exact H2.
+Qed.
+
+(* ---------------------------------------------------------------- pick *)
+
+Lemma pick_code_spec n ps out : pick_code n ps out = 0 <-> pick_holds n ps out.
+Proof.
+  unfold pick_code, pick_holds. split.
+  - intros H.
+    destruct (nodupb out) eqn:E1; cbn [negb] in H; [|discriminate].
+    destruct (inclb out (map cpu ps)) eqn:E2; cbn [negb] in H; [|discriminate].
+    destruct (lenZ out <=? Z.max n 0) eqn:E3; cbn [negb] in H; [|discriminate].
+    split; [apply nodupb_spec; exact E1|]. split; [apply inclb_spec; exact E2|].
+    split; [apply Z.leb_le; exact E3|]. intros [Hn1 Hn2].
+    apply Z.leb_le in Hn1. apply Z.leb_le in Hn2. rewrite Hn1, Hn2 in H. cbn [andb] in H.
+    destruct (lenZ out =? n) eqn:E4; [apply Z.eqb_eq; exact E4 | discriminate].
+  - intros [H1 [H2 [H3 H4]]].
+    apply nodupb_spec in H1. apply inclb_spec in H2. apply Z.leb_le in H3.
+    rewrite H1, H2, H3. cbn [negb].
+    destruct ((0 <=? n) && (n <=? lenZ ps)) eqn:E; [|reflexivity].
+    apply andb_true_iff in E. destruct E as [E1 E2]. apply Z.leb_le in E1. apply Z.leb_le in E2.
+    rewrite (H4 (conj E1 E2)), Z.eqb_refl. reflexivity.
+Qed.
+
+Lemma pick_code_model n ps : NoDup (map cpu ps) -> pick_code n ps (pick n ps) = 0.
+Proof. intros H. apply pick_code_spec. apply pick_holds_model. exact H. Qed.
+
+(* ---------------------------------------------------------------- cpuset files *)
+
+Lemma set_code_spec i s : set_code i s = 0 <-> set_ok i s.
+Proof.
+  unfold set_code, set_ok. split.
+  - intros H.
+    destruct (nodupb s) eqn:C1; cbn [negb] in H; [|discriminate].
+    destruct (forallb (fun c => memZ c (map cpu (a_procs i))) s) eqn:C2; cbn [negb] in H; [|discriminate].
+    destruct (forallb (fun c => negb (protected i c)) s) eqn:C3; cbn [negb] in H; [|discriminate].
+    destruct (lenZ s <=? target i) eqn:C4; cbn [negb] in H; [|discriminate].
+    split; [apply nodupb_spec; exact C1|]. split; [|apply Z.leb_le; exact C4].
+    intros c Hc. rewrite forallb_forall in C2, C3.
+    split; [apply memZ_In; exact (C2 c Hc) | apply negb_true_iff; exact (C3 c Hc)].
+  - intros [H1 [H2 H3]].
+    apply nodupb_spec in H1. rewrite H1. cbn [negb].
+    assert (C2 : forallb (fun c => memZ c (map cpu (a_procs i))) s = true).
+    { apply forallb_forall. intros c Hc. apply memZ_In. exact (proj1 (H2 c Hc)). }
+    assert (C3 : forallb (fun c => negb (protected i c)) s = true).
+    { apply forallb_forall. intros c Hc. apply negb_true_iff. exact (proj2 (H2 c Hc)). }
+    apply Z.leb_le in H3. rewrite C2, C3, H3. reflexivity.
+Qed.
+
+Lemma adjust_code_spec i o : adjust_code i o = 0 <-> adjust_holds i o.
+Proof.
+  destruct o as [[root podd] ctr]. unfold adjust_code, adjust_holds.
+  set (old := to_set (a_old i)). set (enough := target i <=? lenZ (free_cpus i)).
+  pose proof (set_code_spec i ctr) as Hset.
+  pose proof (eq_listZ_spec ctr old) as Hsame.
+  pose proof (eq_listZ_spec podd root) as Hpr.
+  pose proof (eq_listZ_spec root old) as Hro.
+  pose proof (eq_listZ_spec root ctr) as Hrc.
+  pose proof (unprotected_existingb_spec i root) as Hun.
+  assert (Hen : enough = true <-> target i <= lenZ (free_cpus i)) by (unfold enough; apply Z.leb_le).
+  split.
+  - intros H.
+    destruct ((enough || negb (eq_listZ ctr old)) && negb (set_code i ctr =? 0)) eqn:A.
+    { exfalso. apply andb_true_iff in A. destruct A as [_ A]. apply negb_true_iff in A.
+      apply Z.eqb_neq in A. exact (A H). }
+    destruct (enough && negb (lenZ ctr =? target i)) eqn:B; [discriminate|].
+    destruct (eq_listZ podd root) eqn:C; cbn [negb] in H; [|discriminate].
+    split.
+    { destruct (eq_listZ ctr old) eqn:S; [left; apply Hsame; reflexivity|].
+      right. apply Hset. rewrite orb_true_r in A. cbn [andb] in A.
+      apply negb_false_iff in A. apply Z.eqb_eq. exact A. }
+    split.
+    { intros Hle. apply Hen in Hle. rewrite Hle in A, B. cbn [orb andb] in A, B.
+      apply negb_false_iff in A. apply negb_false_iff in B.
+      split; [apply Hset; apply Z.eqb_eq; exact A | apply Z.eqb_eq; exact B]. }
+    split; [apply Hpr; reflexivity|].
+    destruct (a_static i).
+    + destruct (eq_listZ root old || unprotected_existingb i root) eqn:D; [|discriminate].
+      apply orb_true_iff in D. destruct D as [D|D]; [left; apply Hro; exact D | right; apply Hun; exact D].
+    + destruct (eq_listZ root ctr) eqn:D; [apply Hrc; reflexivity | discriminate].
+  - intros [H1 [H2 [H3 H4]]].
+    assert (A : (enough || negb (eq_listZ ctr old)) && negb (set_code i ctr =? 0) = false).
+    { destruct enough eqn:E.
+      - destruct (H2 (proj1 Hen eq_refl)) as [Hok _]. apply Hset in Hok. rewrite Hok. reflexivity.
+      - destruct H1 as [H1|H1].
+        + apply Hsame in H1. rewrite H1. reflexivity.
+        + apply Hset in H1. rewrite H1. apply andb_false_r. }
+    rewrite A.
+    assert (B : enough && negb (lenZ ctr =? target i) = false).
+    { destruct enough eqn:E; [|reflexivity].
+      destruct (H2 (proj1 Hen eq_refl)) as [_ Hl]. rewrite Hl, Z.eqb_refl. reflexivity. }
+    rewrite B. apply Hpr in H3. rewrite H3. cbn [negb].
+    destruct (a_static i).
+    + destruct H4 as [H4|H4]; [apply Hro in H4; rewrite H4; reflexivity|].
+      apply Hun in H4. rewrite H4. rewrite orb_true_r. reflexivity.
+    + apply Hrc in H4. rewrite H4. reflexivity.
+Qed.
+
+Lemma adjust_code_model i : adjust_wf i -> adjust_code i (adjust i) = 0.
+Proof. intros H. apply adjust_code_spec. apply adjust_holds_model. exact H. Qed.
+
+(* ---------------------------------------------------------------- quota *)
+
+Lemma quota_code_spec b cap cur obs : quota_code b cap cur obs = 0 <-> quota_holds b cap cur obs.
+Proof.
+  unfold quota_code, quota_holds.
+  set (q := quota_target b). set (w := cap_cores cap * DefaultCPUCFSPeriod).
+  set (sb := (Z.abs (q - cur) * snd suppressBypassQuotaDeltaRatio <? w * fst suppressBypassQuotaDeltaRatio)
+             && negb (q =? beMinQuota)).
+  set (bb := (w * fst beMaxIncreaseCPUPercent <? (q - cur) * snd beMaxIncreaseCPUPercent)
+             && negb (cur =? -1)).
+  assert (Hs : sb = true <->
+               (Z.abs (q - cur) * snd suppressBypassQuotaDeltaRatio < w * fst suppressBypassQuotaDeltaRatio
+                /\ q <> beMinQuota)).
+  { unfold sb. rewrite andb_true_iff, Z.ltb_lt, negb_true_iff, Z.eqb_neq. tauto. }
+  assert (Hb : bb = true <->
+               (w * fst beMaxIncreaseCPUPercent < (q - cur) * snd beMaxIncreaseCPUPercent /\ cur <> -1)).
+  { unfold bb. rewrite andb_true_iff, Z.ltb_lt, negb_true_iff, Z.eqb_neq. tauto. }
+  destruct sb eqn:Es.
+  - assert (Hsm := proj1 Hs eq_refl). split.
+    + intros H. destruct (obs =? cur) eqn:E; [|discriminate]. apply Z.eqb_eq in E.
+      split; [intros _; exact E|]. split; intros Hn; exfalso; exact (Hn Hsm).
+    + intros [H _]. rewrite (H Hsm), Z.eqb_refl. reflexivity.
+  - assert (Hns : ~ (Z.abs (q - cur) * snd suppressBypassQuotaDeltaRatio < w * fst suppressBypassQuotaDeltaRatio
+                     /\ q <> beMinQuota)).
+    { intros H. apply Hs in H. discriminate. }
+    destruct bb eqn:Eb.
+    + assert (Hbg := proj1 Hb eq_refl). split.
+      * intros H.
+        destruct (obs =? cur + Z.quot (w * fst beMaxIncreaseCPUPercent) (snd beMaxIncreaseCPUPercent)) eqn:E;
+          [|discriminate]. apply Z.eqb_eq in E.
+        split; [intros H'; exfalso; exact (Hns H')|]. split; [intros _ _; exact E|].
+        intros _ Hn. exfalso. exact (Hn Hbg).
+      * intros [_ [H _]]. rewrite (H Hns Hbg), Z.eqb_refl. reflexivity.
+    + assert (Hnb : ~ (w * fst beMaxIncreaseCPUPercent < (q - cur) * snd beMaxIncreaseCPUPercent /\ cur <> -1)).
+      { intros H. apply Hb in H. discriminate. }
+      split.
+      * intros H. destruct (obs =? q) eqn:E; [|discriminate]. apply Z.eqb_eq in E.
+        split; [intros H'; exfalso; exact (Hns H')|]. split; [intros _ H'; exfalso; exact (Hnb H')|].
+        intros _ _. exact E.
+      * intros [_ [_ H]]. rewrite (H Hns Hnb), Z.eqb_refl. reflexivity.
+Qed.
+
+Lemma quota_code_model b cap cur : quota_code b cap cur (quota_new b cap cur) = 0.
+Proof. apply quota_code_spec. apply quota_holds_model. Qed.
+
+(* ---------------------------------------------------------------- budget *)
+
+Lemma budget_holdsb_spec i b : budget_holdsb i b = true <-> budget_holds i b.
+Proof.
+  unfold budget_holdsb, budget_holds.
+  rewrite orb_true_iff, andb_true_iff, negb_true_iff, !Z.eqb_eq. tauto.
+Qed.
+
+Lemma node_reserved_perturb k idx d i : node_reserved (perturb k idx d i) = node_reserved i.
+Proof.
+  unfold perturb. destruct (k =? 1); [reflexivity|]. destruct (k =? 2); [reflexivity|].
+  destruct (k =? 3); [reflexivity|]. destruct (k =? 4); reflexivity.
+Qed.
+Lemma rt_ok_perturb k idx d i : rt_ok (perturb k idx d i) = rt_ok i.
+Proof. unfold rt_ok. rewrite node_reserved_perturb. reflexivity. Qed.
+
+(* the decision procedure run on the model's own observable, for the perturbation kinds the
+   antitone theorem covers (0 = none, 1..3 = a consumer or the system uses more) *)
+Lemma budget_code_model k idx d i : rt_ok i = true -> k <> 4 ->
+  budget_code k idx d i [budget i; budget (perturb k idx d i)] = 0.
+Proof.
+  intros Hok Hk. unfold budget_code.
+  assert (H1 : budget_holdsb i (budget i) = true)
+    by (apply budget_holdsb_spec; apply budget_formula; exact Hok).
+  assert (H2 : budget_holdsb (perturb k idx d i) (budget (perturb k idx d i)) = true).
+  { apply budget_holdsb_spec. apply budget_formula. rewrite rt_ok_perturb. exact Hok. }
+  rewrite H1, H2. cbn [negb].
+  assert (E4 : (k =? 4) = false) by (apply Z.eqb_neq; exact Hk). rewrite E4. cbn [andb].
+  destruct ((1 <=? k) && (k <=? 3) && (0 <=? d)) eqn:E; [|reflexivity]. cbn [andb].
+  apply andb_true_iff in E. destruct E as [E E3]. apply andb_true_iff in E. destruct E as [E1 E2].
+  apply Z.leb_le in E1. apply Z.leb_le in E2. apply Z.leb_le in E3.
+  assert (Hle : budget (perturb k idx d i) <= budget i).
+  { apply budget_antitone; [|apply perturb_grows; lia].
+    unfold rt_ok in Hok. apply andb_true_iff in Hok. apply Z.leb_le. exact (proj2 Hok). }
+  apply Z.leb_le in Hle. rewrite Hle. reflexivity.
+Qed.
+
+(* ---------------------------------------------------------------- witnesses *)
+
+(* The pod order decides whether a cpu of an LSE pod is protected: LSE pod {2,3} followed by an
+   LSR pod {2,3}, budget 3 cpus, current BE cpuset {0,1}: cpu 2 is handed to BE. *)
+Definition w_procs : list proc :=
+  [mkProc 0 0 0 0; mkProc 1 0 0 0; mkProc 2 1 0 0; mkProc 3 1 0 0].
+Definition w_overwritten : ainput :=
+  mkA 3000 false [0; 1] w_procs [mkCpod Q_LSE [2; 3]; mkCpod Q_LSR [2; 3]] [] [].
+Definition w_ordered : ainput :=
+  mkA 3000 false [0; 1] w_procs [mkCpod Q_LSR [2; 3]; mkCpod Q_LSE [2; 3]] [] [].
+
+Lemma lse_overwritten_refuted :
+  exists i, NoDup (map cpu (a_procs i)) /\
+            exists c, In c (snd (adjust i)) /\ lse_owned (a_pods i) c = true.
+Proof.
+  exists w_overwritten. split.
+  - apply nodupb_spec. vm_compute. reflexivity.
+  - exists 2. split; vm_compute; auto.
+Qed.
+Lemma lse_order_dependent : adjust w_overwritten <> adjust w_ordered.
+Proof. vm_compute. discriminate. Qed.
+
+(* "at least two" without the hypothesis on the current cpuset: an empty besteffort cpuset on a
+   node of at most ten cpus grows by one cpu only *)
+Lemma count_lower_refuted : exists b o np, 0 <= o /\ 0 <= np /\ target_count b o np < 2.
+Proof. exists 4000, 0, 4. vm_compute. repeat split; discriminate || reflexivity. Qed.
+
+(* the exact formula without the hypothesis on the float64 round trip: a reservation of
+   1001 milli-CPU counts as 1000 *)
+Definition w_rt : binput := mkB 8000 6999 0 100 None 0 [] [].
+Lemma budget_exact_refuted : exists i, budget i = budget_spec i + 1.
+Proof. exists w_rt. vm_compute. reflexivity. Qed.
